@@ -1,14 +1,18 @@
 """C07 -- aggregations equal a sequential fold."""
 from props.ops import *   # noqa
+from props.plan import agg_plan_harness, agg_plan_tasks   # noqa
 
 META = {
     'explanation': 'Aggregations: the real Fold / KeyedFold operators are driven over every symbolic upstream '
                    'script within the bound; the user function is an uninterpreted function so the result '
-                   'term identifies exactly the folded items and their order.',
+                   'term identifies exactly the folded items and their order. The builders (fold, reduce, fold_assoc, '
+                   'reduce_assoc, group_by_fold/reduce/sum/count/min/max, group_by + fold/reduce) are executed from MIR into a '
+                   'logical plan which is evaluated over symbolic values spread over the replicas (props/plan.py).',
     'assumptions': ['user functions are pure'],
     'trusted': ['mirsym MIR executor and its std model table', 'z3 / cvc5'],
 }
 
 
 def TASKS(tier):
-    return fold_tasks(tier, 'fold') + keyed_fold_tasks(tier, 'keyed_fold') + two_phase_tasks(tier, 'two_phase')
+    return fold_tasks(tier, 'fold') + keyed_fold_tasks(tier, 'keyed_fold') + two_phase_tasks(tier, 'two_phase') + \
+        agg_plan_tasks(tier, 'agg_plan')
